@@ -563,6 +563,15 @@ def _convert_returns(stmts, resvar):
                          orelse=_convert_returns(els, resvar))
             out.append(ast.copy_location(new, s))
             return out
+        if isinstance(s, ast.Try) and not stmts[i + 1:] and not s.finalbody:
+            # a try statement in tail position: every part is itself in tail position
+            new = ast.Try(body=_convert_returns(list(s.body), resvar) or [ast.Pass()],
+                          handlers=[ast.copy_location(ast.ExceptHandler(type=h.type, name=h.name,
+                                                                         body=_convert_returns(list(h.body), resvar) or [ast.Pass()]), h)
+                                    for h in s.handlers],
+                          orelse=_convert_returns(list(s.orelse), resvar), finalbody=[])
+            out.append(ast.copy_location(new, s))
+            return out
         raise _NotInlinable('return inside %s' % type(s).__name__)
     return out
 
@@ -662,14 +671,19 @@ class Inliner(object):
             del self.helpers[nm]
         for nm in list(self.helpers):
             fn, _m = self.helpers[nm]
-            if fn.decorator_list or _has(fn.body, (ast.Yield, ast.YieldFrom, ast.FunctionDef, ast.Lambda, ast.Global, ast.Nonlocal)):
+            static_only = all(isinstance(d, ast.Name) and d.id == 'staticmethod' for d in fn.decorator_list)
+            if not static_only or _has(fn.body, (ast.Yield, ast.YieldFrom, ast.FunctionDef, ast.Lambda, ast.Global, ast.Nonlocal)):
                 del self.helpers[nm]
+        self.static = {nm for nm, (fn, _m) in self.helpers.items() if fn.decorator_list}
 
     def _resolve(self, call):
         f = call.func
         if isinstance(f, ast.Attribute) and isinstance(f.value, ast.Name) and f.value.id == 'self' and f.attr in self.helpers \
                 and self.helpers[f.attr][1]:
             return self.helpers[f.attr]
+        # static helper: self.h(..) or Cls.h(..) - nothing is bound to a first parameter
+        if isinstance(f, ast.Attribute) and isinstance(f.value, ast.Name) and f.attr in self.helpers and f.attr in self.static:
+            return (self.helpers[f.attr][0], False)
         if isinstance(f, ast.Name) and f.id in self.helpers and not self.helpers[f.id][1]:
             return self.helpers[f.id]
         return None
